@@ -536,7 +536,10 @@ func (rt resultGrouped) Extract(cw containerWriter, decorated bool, v reflect.Va
 	}
 
 	if decorated {
-		cw.submitDecoratedGroupedValue(rt.Group, rt.Type, v)
+		// Like providers and decorators, decorated groups are keyed by the
+		// type of their elements: consumers may take the group through any
+		// slice type over that element type.
+		cw.submitDecoratedGroupedValue(rt.Group, rt.Type.Elem(), v)
 		return
 	}
 	for i := 0; i < v.Len(); i++ {
